@@ -98,8 +98,52 @@ def run(tier):
             key = key_for(real, None) if real["k"] == "CRASH" else "C01|%s" % real["k"].lower()
             chk.violation(key, "accepted program makes the back end %s: %r" % (real["k"].lower(), t[:160]), {"files": {progs.B + "m1.oal": t}, "real": real})
     chk.cov["evaluations"] += len(extra)
+    # random composite programs judged by EvalAbs.tla in oracle mode (one initial state per program)
+    import gen
+    import oracle
+    import render
+    ps = gen.programs(common.seed() * 1000 + 1, 600 if tier == "quick" else 8000, p_bad=0.01)
+    rps = [render.render_program(p, style=i % 4) for i, p in enumerate(ps)]
+    oracle.crosscheck(ps, rps)
+    es, rs = oracle.evalabs(ps, chunk=500)
+    for r2 in rs:
+        chk.add_tlc(r2)
+    gcases = [{"main": rp["main"], "files": rp["files"], "want": {}} for rp in rps]
+    gobs = run_oalv_parallel("compile", gcases, jobs=8)
+    gcounts = {}
+    for p, hc, o, e in zip(ps, gcases, gobs, es):
+        if o.get("outcome") == "skipped" or e is None:
+            continue
+        real = progs.real_outcome(o)
+        spec = e["outcome"]
+        gcounts[(spec, real["k"])] = gcounts.get((spec, real["k"]), 0) + 1
+        text = hc["files"][hc["main"]]
+        payload = {"files": hc["files"], "family": ["composite", "", ""], "spec": {"outcome": spec, "site": e["site"], "variant": e["variant"]}, "real": real}
+        if real["k"] in ("OK", "ERROR", "CRASH", "ABORT", "HANG"):
+            accepted += 1
+        if real["k"] in ("CRASH", "ABORT", "HANG"):
+            if real["k"] == "CRASH" and real.get("phase") == "load":
+                chk.violation("C01|crash-in-compile|%s" % "|".join(progs.crash_signature(real["msg"])), "the compiler itself panics on %r" % text[:120], payload)
+            else:
+                fake = {"outcome": spec, "variant": e["variant"], "prog": p}
+                key = key_for(real, fake) if real["k"] == "CRASH" else "C01|%s" % real["k"].lower()
+                chk.violation(key, "accepted program makes the back end %s (%s): %r" % (
+                    "panic" if real["k"] == "CRASH" else real["k"].lower(), (real.get("msg") or "")[:80], text[:160]), payload)
+        elif real["k"] == "ERROR" and not real.get("located"):
+            chk.violation("C01|unlocated-error", "evaluation error without a location on %r" % text[:120], payload)
+        same = (spec == real["k"]) or (spec == "DIVERGE" and real["k"] in ("ABORT", "HANG"))
+        if same and spec == "CRASH":
+            same = progs.spec_crash_signature(e["site"], e["variant"]) == progs.crash_signature(real["msg"])
+        if same:
+            chk.cov["traces_validated_against_impl"] += 1
+        else:
+            chk.drift("C01|composite-outcome|spec=%s real=%s" % (spec, real["k"]), "EvalAbs.tla (oracle mode) predicts %s, the real pipeline gives %s on e.g. %r" % (spec, real["k"], text[:160]))
+    chk.cov["evaluations"] += len(ps)
+    chk.cov["distinct_nontrivial"] = accepted
+    chk.notes["composites_spec_vs_real"] = {"%s/%s" % k: v for k, v in sorted(gcounts.items())}
     chk.cov["rule"] = ("PosShape: 22 consuming positions x 25 shapes x 3 (quick) / 6 (thorough) indirections; FnPos: 18 parameter positions x 25 shapes x "
-                       "{local, imported}; plus recursive declaration shapes; non-trivial = accepted by the real compiler (the property's antecedent); "
+                       "{local, imported}; the Arity family (too few / too many arguments, local, imported, concat); recursive declaration shapes; seeded random composite programs "
+                       "(gen.py; 600 quick / 8000 thorough) judged by EvalAbs.tla in oracle mode; non-trivial = accepted by the real compiler (the property's antecedent); "
                        "members are distinct triples")
     if r.cases:
         k = len(r.cases) // 2
